@@ -624,16 +624,23 @@ Definition encode_item (max_size : N) (ep : option N) (it : encoded) : bytes * r
     | Some _ => ([], Err EE_ExpectPayload)
     | None =>
       let content_size := get_encoded_size pkt in
-      let (w, r) := encode pkt (as_u32 content_size) in
-      (w, let* _ := r in Ok ep)
+      if VI_MAX <? content_size then ([], Err EE_OverMaxPacketSize)   (* content_size > MAX_PACKET_SIZE *)
+      else
+        let (w, r) := encode pkt (as_u32 content_size) in
+        (w, let* _ := r in Ok ep)
     end
   | EPublish pkt buf =>
     if is_qos12 (p_qos pkt) && match p_packet_id pkt with None => true | Some _ => false end
     then ([], Err EE_PacketIdRequired)
     else
-      let content_size := as_u32 (get_encoded_publish_size pkt) in
-      if negb (max_size =? 0) && (max_size <? content_size) then ([], Err EE_OverMaxPacketSize)
+      let content_size := get_encoded_publish_size pkt in              (* usize *)
+      if (VI_MAX <? content_size) || (negb (max_size =? 0) && (max_size <? content_size))
+      then ([], Err EE_OverMaxPacketSize)
       else
+        let content_size := as_u32 content_size in                     (* not bigger than MAX_PACKET_SIZE *)
+        if match buf with Some b => p_payload_size pkt <? len b | None => false end
+        then ([], Err EE_OverPublishSize)
+        else
         match encode_publish pkt content_size with
         | (w, Err e) => (w, Err e)
         | (w, Panic s) => (w, Panic s)
